@@ -11,17 +11,31 @@ import (
 	"io"
 	"log"
 	"net/url"
+	"os"
 	"strings"
+	"testing"
 
 	"github.com/go-faster/errors"
 
 	"verif/internal/vk"
 )
 
-func init() {
+func TestMain(m *testing.M) {
 	// net/http logs when it drops an invalid cookie byte; the check sees the
 	// effect on the wire, the log line is noise.
 	log.SetOutput(io.Discard)
+	// gen/write.go dumps a source file it cannot format into the working
+	// directory (property names with a quote do that): keep those out of the tree
+	if dir, err := os.MkdirTemp("", "c06-wd-"); err == nil {
+		if os.Chdir(dir) == nil {
+			defer os.RemoveAll(dir)
+		}
+	}
+	code := m.Run()
+	if dir, err := os.Getwd(); err == nil && strings.Contains(dir, "c06-wd-") {
+		os.RemoveAll(dir)
+	}
+	os.Exit(code)
 }
 
 // Outcome is everything observed for one case (kept for labels and samples).
